@@ -118,6 +118,11 @@ def run_case(cid, rng, workdir):
     groups = C03.split_rows(sysd, gro)
     sup_keys = {(g["mol"], g["res"]): g for g in info["supplied"]}
     cen_keys = {(g["mol"], g["res"]): c for g, c in info["centres"]}
+    if info.get("c_part"):
+        # residues given with all their atoms (-c) and, in the same run, with their centre (-mc): the atoms were given
+        for g in info["c_part"]:
+            sup_keys[(g["mol"], g["res"])] = g
+            cen_keys.pop((g["mol"], g["res"]), None)
     ngen = 0
     bump(res, {"c_prefix": "prefix_runs", "c_res": "build_res_runs", "mc": "meta_runs", "c_full": "full_runs",
                "mc_res": "meta_build_res_runs", "c_mc": "atoms_and_centres_runs"}[info["mode"]])
